@@ -84,13 +84,22 @@ def methodSexp (m : GMethod) : Sexp :=
     m.arms.map fun a => .list [.atom "arm", .list (a.patPath.map .atom), .list (a.patFields.map .atom),
       .list (a.binders.map .atom), gexprSexp a.body])
 
-/-- what `derive::expand` appends: per definition the `to_string` impl, then the `to_json` impl -/
-def derivedSexp (wantJson wantString : Bool) (Δ : Defs) : Sexp :=
+/-- what `derive::expand` appends: per definition `expandImpls` of its attributes (when the case gives
+    none for a definition: the single derive attribute of the program) -/
+def derivedSexp (wantJson wantString : Bool) (attrs : List (String × List String)) (Δ : Defs) : Sexp :=
+  let dflt : List (List Char) :=
+    [("#[derive(" ++ ", ".intercalate ((if wantJson then ["ToJson"] else []) ++ (if wantString then ["ToString"] else [])) ++ ")]").toList]
   .list (.atom "derived" :: Δ.flatMap fun d =>
-    (if wantString then [Sexp.list [.atom "impl", .atom d.name, methodSexp (genString bindFresh d)]] else []) ++
-    (if wantJson then [Sexp.list [.atom "impl", .atom d.name, methodSexp (genJson bindFresh d)]] else []))
+    let as := match attrs.find? (·.1 == d.name) with
+      | some (_, xs) => xs.map String.toList
+      | none => dflt
+    (expandImpls bindFresh as d).map fun m => Sexp.list [.atom "impl", .atom d.name, methodSexp m])
 
-def modelLine (id : String) (flags defs vals : List Sexp) : String :=
+def decAttrs : Sexp → Option (String × List String)
+  | .list (.atom n :: xs) => some (n, xs.filterMap Sexp.str?)
+  | _ => none
+
+def modelLine (id : String) (flags defs vals : List Sexp) (attrs : List Sexp := []) : String :=
   match optMapM decDef defs, optMapM decTopVal vals with
   | some Δ, some vs =>
     let wantJson := flags.contains (.atom "json")
@@ -102,7 +111,7 @@ def modelLine (id : String) (flags defs vals : List Sexp) : String :=
     let sc := Δ.all fun d => (genJson bindFresh d).scoped && (genString bindFresh d).scoped
     let scOld := Δ.all fun d => (genJson bindFieldName d).scoped && (genString bindFieldName d).scoped
     if typed then
-      s!"{id}\tmodel\t{SemRun.escOut (String.join (js ++ ss))}\t{if acc then "yes" else "no"}\t{if sc then "yes" else "no"}\t{if scOld then "yes" else "no"}\t{derivedSexp wantJson wantString Δ}"
+      s!"{id}\tmodel\t{SemRun.escOut (String.join (js ++ ss))}\t{if acc then "yes" else "no"}\t{if sc then "yes" else "no"}\t{if scOld then "yes" else "no"}\t{derivedSexp wantJson wantString (attrs.filterMap decAttrs) Δ}"
     else s!"{id}\tmodel-error\tvalue does not have its type"
   | _, _ => s!"{id}\tparse-error"
 
@@ -128,6 +137,11 @@ def runLine (l : String) : String :=
   match Sexp.parse rest with
   | some (.list [.atom "case", .list (.atom "derive" :: flags), .list (.atom "defs" :: defs), .list (.atom "vals" :: vals)]) =>
     modelLine id flags defs vals
+  | some (.list [.atom "case", .list (.atom "derive" :: flags), .list (.atom "defs" :: defs), .list (.atom "vals" :: vals), .list (.atom "attrs" :: attrs)]) =>
+    modelLine id flags defs vals attrs
+  | some (.list (.atom "attrprobe" :: as)) =>
+    let xs := (as.filterMap Sexp.str?).map String.toList
+    s!"{id}\tattrs\t{if derivesTrait xs "ToJson".toList then "yes" else "no"}\t{if derivesTrait xs "ToString".toList then "yes" else "no"}"
   | some (.list [.atom "oracle", .list (.atom "defs" :: defs), .list (.atom "vals" :: vals), .list (.atom "lines" :: lines)]) =>
     oracleLine id defs vals lines
   | some (.list [.atom "fmt", size, bits]) =>
